@@ -268,10 +268,14 @@ def hold_until(path, value=None):
 
 
 def ctx_t1(x, k=0):
+    if x == 'SLEEP':
+        time.sleep(600)      # blocked in a C call: does not react to a polite termination request
     return ('t1', x, k)
 
 
 def ctx_t2(x, k=0):
+    if x == 'SLEEP':
+        time.sleep(600)
     return ('t2', x, k)
 
 
